@@ -1146,7 +1146,14 @@ def r122(ctx, repo):
 
         def warn(self, *a, **k):
             pass
-    g = {"np": numpy_model(log=lambda a: (logs.append(a), ("log", a))[1],
+    def _log(a, out=None, dtype=None, **k):
+        logs.append(a)
+        if dtype not in (None, float, "float64", "longdouble"):
+            return ("log narrowed to", dtype, a)
+        if out is not None:
+            return ("log written into", out)
+        return ("log", a)
+    g = {"np": numpy_model(log=_log,
                            log10=lambda a: ("log10", a),
                            log2=lambda a: ("log2", a),
                            log1p=lambda a: ("log1p", a)),
@@ -1168,8 +1175,16 @@ def r122(ctx, repo):
            else f"_apply_scale('linear') returns {res['linear']!r}", node=f,
            label="_apply_scale linear")
     ok = res["log"] == ("log", a) and len(logs) == 1
+    narrowed = isinstance(res["log"], tuple) and res["log"][:1] == (
+        "log narrowed to",)
     ctx.ob("R12.2", ok, "_apply_scale('log') returns np.log of its input"
-           if ok else f"_apply_scale('log') returns {res['log']!r}", node=f,
+           if ok else (
+               f"_apply_scale('log') computes the logarithm with dtype "
+               f"{res['log'][1]}: the scaled data lose the precision of the "
+               f"feature values, grids / densities / downsampling computed "
+               f"on the log scale differ from those of the float64 values"
+               if narrowed else
+               f"_apply_scale('log') returns {res['log']!r}"), node=f,
            label="_apply_scale log")
     ok = isinstance(res["quadratic"], ModelFault)
     ctx.ob("R12.2", ok, "an unknown scale is rejected" if ok else
@@ -2222,6 +2237,57 @@ def r125(ctx, repo):
                f"influence the bin width", node=f,
                label=f"{name} statistics from purged data")
     ctx.stat("R12.5 helpers", helpers)
+    # the Doane bin number is the *rounded* ratio range / bin width
+    # (evaluated from the parsed source on exact rationals)
+    if "bin_num_doane" in funcs:
+        from fractions import Fraction
+        fn = repo.func(KDE, "bin_num_doane")
+        bad = None
+        for ratio in (Fraction(17, 4), Fraction(19, 4), Fraction(9, 2),
+                      Fraction(11, 2), Fraction(7), Fraction(1, 4),
+                      Fraction(3, 4), Fraction(100001, 10000)):
+            rng_ = Fraction(12)
+            acc = rng_ / ratio
+            vals = Arr([Fraction(3), Fraction(3) + rng_, Fraction(5),
+                        Ev("a", 3, "nan")], "num")
+
+            def scalar_or(fn_, tag):
+                return lambda x: fn_(x) if isinstance(x, Arr) else (
+                    isinstance(x, Ev) and x.tag == tag)
+            npm = np_values(round=lambda x, *k: round(x),
+                            rint=lambda x: round(x),
+                            floor=lambda x: x.__floor__(),
+                            ceil=lambda x: x.__ceil__())
+            npm.__dict__["isnan"] = scalar_or(npm.isnan, "nan")
+            npm.__dict__["isinf"] = scalar_or(npm.isinf, "inf")
+            mini = Mini({"np": npm})
+            mini.bind_module(repo.tree(KDE))
+            mini.g["bin_width_doane"] = lambda a_, _acc=acc: _acc
+            try:
+                got = mini.call(fn, (vals,))
+            except ModelFault as e:
+                bad = bad or f"range / width = {ratio}: {e}"
+                continue
+            want = round(ratio)
+            if got != want:
+                bad = bad or (f"range / width = {float(ratio)}: "
+                              f"{got} bins, the rounded ratio is {want}")
+        for acc0, lab in ((0, "0"), (Ev("w", 0, "nan"), "nan")):
+            mini.g["bin_width_doane"] = lambda a_, _acc=acc0: _acc
+            try:
+                got = mini.call(fn, (vals,))
+            except ModelFault as e:
+                bad = bad or f"bin width {lab}: {e}"
+                continue
+            if not isinstance(got, int) or got <= 0:
+                bad = bad or (f"bin width {lab}: {got!r} bins (a positive "
+                              f"default is required)")
+        ctx.ob("R12.5", bad is None,
+               "bin_num_doane: the number of bins is the rounded ratio of "
+               "the finite data range and the Doane width (a positive "
+               "default when the width is 0 / nan)" if bad is None else
+               f"bin_num_doane: {bad}", node=fn,
+               label="bin_num_doane rounds range / width")
 
 
 def _stmt(n):
@@ -2275,7 +2341,7 @@ def r126(ctx, repo):
 
                 def warn(self, *a, **k):
                     pass
-            mini = Mini({"np": numpy_model(log=lambda a: a),
+            mini = Mini({"np": numpy_model(log=lambda a, **k: a),
                          "warnings": W(),
                          "downsampling": NS("downsampling",
                                             downsample_grid=grid)})
@@ -3040,5 +3106,29 @@ TWINS = list(TWINS) + [
             "yout.flatten()]).T\n")),
     ("positions: np.c_", KDE,
      (_POS, "    positions = np.c_[xout.flatten(), yout.flatten()]\n")),
+]
+
+
+MUTANTS = list(MUTANTS) + [
+    ("bin number truncated instead of rounded (seeded)", KDE,
+     ("        num = int(np.round((data.max() - data.min()) / acc))",
+      "        num = int((data.max() - data.min()) / acc)"), "R12.5"),
+    ("bin number rounded up", KDE,
+     ("        num = int(np.round((data.max() - data.min()) / acc))",
+      "        num = int(np.ceil((data.max() - data.min()) / acc))"),
+     "R12.5"),
+    ("_apply_scale: logarithm computed in single precision (seeded)", CORE,
+     ("                b = np.log(a)\n",
+      "                b = np.log(a, dtype=np.float32)\n"), "R12.2"),
+]
+
+TWINS = list(TWINS) + [
+    ("bin number: ratio in a local, np.rint", KDE,
+     ("        num = int(np.round((data.max() - data.min()) / acc))",
+      "        ratio = (data.max() - data.min()) / acc\n"
+      "        num = int(np.rint(ratio))")),
+    ("_apply_scale: logarithm with explicit double precision", CORE,
+     ("                b = np.log(a)\n",
+      "                b = np.log(a, dtype=np.float64)\n")),
 ]
 
